@@ -568,11 +568,11 @@ Record ident := Ident { id_td : string; id_ap : string; id_ns : string; id_dc : 
 Definition parse_service (u : uri) : option ident :=
   match u_segs u with
   | [a; ns; b; dc; c; svc] =>
-      if (a =? "ns") && (b =? "dc") && (c =? "svc")
+      if ("ns" =? a) && ("dc" =? b) && ("svc" =? c)
          && negb (ns =? "") && negb (dc =? "") && negb (svc =? "")
       then Some (Ident (u_host u) "default" ns dc svc) else None
   | [p; ap; a; ns; b; dc; c; svc] =>
-      if (p =? "ap") && (a =? "ns") && (b =? "dc") && (c =? "svc")
+      if ("ap" =? p) && ("ns" =? a) && ("dc" =? b) && ("svc" =? c)
          && negb (ap =? "") && negb (ap =? "default")
          && negb (ns =? "") && negb (dc =? "") && negb (svc =? "")
       then Some (Ident (u_host u) ap ns dc svc) else None
@@ -580,9 +580,9 @@ Definition parse_service (u : uri) : option ident :=
   end.
 
 Definition is_gateway (td : string) (u : uri) : bool :=
-  (u_host u =? td) &&
+  (td =? u_host u) &&
   match u_segs u with
-  | [a; b; c; dc] => (a =? "gateway") && (b =? "mesh") && (c =? "dc") && negb (dc =? "")
+  | [a; b; c; dc] => ("gateway" =? a) && ("mesh" =? b) && ("dc" =? c) && negb (dc =? "")
   | _ => false
   end.
 
@@ -591,9 +591,9 @@ Definition eff_ap (s : rsvc) : string :=
   to_lower (or_default (if s_peer s =? "" then s_ap s else s_exp_ap s)).
 
 Definition src_covers (s : rsvc) (id : ident) : bool :=
-  (id_td id =? s_td s) && (id_ap id =? eff_ap s)
-  && ((s_ns s =? wild) || (id_ns id =? s_ns s))
-  && ((s_name s =? wild) || (id_svc id =? s_name s)).
+  (s_td s =? id_td id) && (eff_ap s =? id_ap id)
+  && ((s_ns s =? wild) || (s_ns s =? id_ns id))
+  && ((s_name s =? wild) || (s_name s =? id_svc id)).
 
 Definition covers_uri (s : rsvc) (u : uri) : bool :=
   match parse_service u with Some id => src_covers s id | None => false end.
